@@ -23,6 +23,7 @@ _ALLOWED_FUNCTIONS: dict[str, Callable[..., sympy.Expr]] = {
     "min": sympy.Min,
     "Min": sympy.Min,
     "floor": sympy.floor,
+    "ceiling": sympy.ceiling,  # what SymPy prints for math.ceil(dim)
     "sqrt": sympy.sqrt,
     "mod": sympy.Mod,
     "Mod": sympy.Mod,
@@ -112,7 +113,7 @@ class _ExpressionParser:
 
     Supports:
         - Basic arithmetic: +, -, *, /, //, %, **
-        - Functions: max(), min(), floor(), sqrt()
+        - Functions: max(), min(), floor(), ceiling(), sqrt()
         - Symbolic variables (identifiers)
         - Integer literals
         - Parentheses for grouping
@@ -294,7 +295,7 @@ def parse_symbolic_expression(value: str) -> sympy.Expr:
 
     Supports:
         - Basic arithmetic: +, -, *, /, //, %, **
-        - Functions: max(), min(), floor(), sqrt()
+        - Functions: max(), min(), floor(), ceiling(), sqrt()
         - Symbolic variables (identifiers)
         - Integer literals
         - Parentheses for grouping
